@@ -33,6 +33,10 @@ type Case struct {
 	StopLate  bool          // base run: stop only after the stored frontier covers the last unit
 	ForeignDB int           // > 0: the target holds an unrelated key in that database
 	Base      int64         // source offset of the first stream byte (= offset of the empty snapshot)
+	// Failover: start-ups of this case look the replication ids up on the source double that
+	// reports [FailoverRunIDs] (a new master_replid, the old one as master_replid2).
+	Failover bool
+	Tag      string // extra signature context ("" = none)
 }
 
 func (c Case) String() string {
@@ -51,6 +55,9 @@ func (c Case) Ctx(mode config.ReplayMode, switched bool) string {
 	}
 	if c.ForeignDB > 0 {
 		s += "|target-has-other-db"
+	}
+	if c.Tag != "" {
+		s += "|" + c.Tag
 	}
 	return s
 }
@@ -95,6 +102,9 @@ type Driver struct {
 
 	gate cfgGate
 	src  *fakeredis.Server
+	// srcNew: the source after a fail-over with granted continuation (started on first use)
+	newOnce sync.Once
+	srcNew  *fakeredis.Server
 }
 
 // cfgGate: a shared/exclusive gate keyed by configuration.  Holders of the current key share it;
@@ -166,10 +176,37 @@ func NewDriver(newOutput func(cfg syncer.SyncerConfig) (*syncer.RedisOutput, err
 	return &Driver{NewOutput: newOutput, src: fakeredis.MustStart(fakeredis.Options{})}
 }
 
-func (d *Driver) Close() { d.src.Close() }
+func (d *Driver) Close() {
+	d.src.Close()
+	d.newOnce.Do(func() {})
+	if d.srcNew != nil {
+		d.srcNew.Close()
+	}
+}
 
 // SourceRunIDs: what the source double reports as master_replid / master_replid2.
 func SourceRunIDs() []string { return []string{strings.Repeat("f", 40), strings.Repeat("0", 40)} }
+
+// FailoverRunIDs: what the source reports after a fail-over that continues the same offset space
+// (PSYNC continuation): a new master_replid, the previous one as master_replid2.
+func FailoverRunIDs() []string { return []string{strings.Repeat("e", 40), strings.Repeat("f", 40)} }
+
+func (d *Driver) failoverSource() *fakeredis.Server {
+	d.newOnce.Do(func() {
+		s := fakeredis.MustStart(fakeredis.Options{})
+		ids := FailoverRunIDs()
+		body := []byte(fmt.Sprintf("# Replication\r\nrole:master\r\nconnected_slaves:0\r\nmaster_failover_state:no-failover\r\n"+
+			"master_replid:%s\r\nmaster_replid2:%s\r\nmaster_repl_offset:0\r\nsecond_repl_offset:1\r\n\r\n", ids[0], ids[1]))
+		s.SetHooks(nil, func(r *fakeredis.Req) (fakeredis.Reply, bool) {
+			if r.Cmd == "INFO" && len(r.Args) == 1 && strings.EqualFold(string(r.Args[0]), "replication") {
+				return body, true
+			}
+			return nil, false
+		}, nil)
+		d.srcNew = s
+	})
+	return d.srcNew
+}
 
 // OpenCfg is what varies between start-ups.
 type OpenCfg struct {
@@ -178,11 +215,12 @@ type OpenCfg struct {
 	Window         uint
 	Parallelism    int  // replay.parallelism: lanes of parallel mode on a cluster target (0 = one per shard)
 	CanTransaction bool // SyncerConfig.CanTransaction (cmd/syncer.go: false for a cluster target fed from a standalone source)
+	Failover       bool // look the replication ids up on the failed-over source double
 }
 
 // Open performs the real start-up bookkeeping against tgt and returns the output to replay with.
 func (d *Driver) Open(tgt Target, c Case, mode config.ReplayMode) (*syncer.RedisOutput, error) {
-	return d.OpenCfg(OpenCfg{Target: tgt.Redis(), Mode: mode, Window: c.Window, CanTransaction: true})
+	return d.OpenCfg(OpenCfg{Target: tgt.Redis(), Mode: mode, Window: c.Window, CanTransaction: true, Failover: c.Failover})
 }
 
 // OpenCfg is Open for an arbitrary target configuration.
@@ -202,7 +240,11 @@ func (d *Driver) OpenCfg(oc OpenCfg) (*syncer.RedisOutput, error) {
 		}}
 	})
 	defer d.gate.release()
-	scfg := syncer.SyncerConfig{Id: 1, Input: drive.StandaloneRedis(d.src.Addr(), "7.2.0"), Output: oc.Target,
+	src := d.src
+	if oc.Failover {
+		src = d.failoverSource()
+	}
+	scfg := syncer.SyncerConfig{Id: 1, Input: drive.StandaloneRedis(src.Addr(), "7.2.0"), Output: oc.Target,
 		Channel:        config.ChannelConfig{Type: config.ChannelTypeMemory, Memory: &config.MemoryConfig{MaxSize: 1 << 20, LogSize: 1 << 16}},
 		CanTransaction: oc.CanTransaction}
 	return d.NewOutput(scfg)
@@ -284,6 +326,8 @@ type Env struct {
 	Last    *Unit
 	Base    *RunLog
 	Watch   time.Duration
+	// AltRunIDs: further replication ids a start point may legitimately carry (after a fail-over)
+	AltRunIDs []string
 }
 
 func (e *Env) targetOptions() TargetOptions {
@@ -569,7 +613,7 @@ func (e *Env) Restart(r *rand.Rand, p *RunLog, cut Cut, idleStarts int, modes []
 		sp, err := out.StartPoint(ctx, e.IDs)
 		st.SP, st.Err = sp, err
 		st.ReqDone = l.SeqBase + tgt.Seq()
-		usable := err == nil && sp.RunId == e.RunID && sp.Offset >= e.C.Base && sp.Offset <= e.streamEnd() &&
+		usable := err == nil && e.knownRunID(sp.RunId) && sp.Offset >= e.C.Base && sp.Offset <= e.streamEnd() &&
 			(sp.Offset == e.C.Base || e.EndUnit[sp.Offset] != nil)
 		if !usable {
 			// no Send is possible from here (an error, no position = the tool would full-sync, or a
